@@ -435,7 +435,7 @@ def _bufclass(bufsize):
 
 
 def run(ctx):
-    ctx.set_budget(60, 700)
+    ctx.set_budget(60, 840)
     ctx.explore(case_st(), lambda c: execute(ctx, c), ctx.scale(4000, 50000))
 
 
